@@ -59,7 +59,7 @@ def check(run):
     tier = run.tier
     jobs = jobs_for(tier)
     payload = {"mode": "run", "jobs": jobs, "workers": 15, "seed": run.seed, "run_timeout": 600 if tier == "quick" else 1200}
-    r = run.harness("rt_c15.py", payload, root=run.fresh_copy(), timeout=800 if tier == "quick" else 4000)
+    r = run.harness("rt_c15.py", payload, root=run.fresh_copy(), timeout=2400 if tier == "quick" else 6000)
     if r.get("machinery_errors"):
         raise CheckerError("C15 harness: %s" % str(r["machinery_errors"][0])[:1500])
     if len(r["jobs"]) != len(jobs) or not r["cases"]:
